@@ -114,8 +114,44 @@ def run_unit(name):
                                      models=reg.records_models, inline=_inline))
     for r in out:
         for ob in r.obligations:
-            ob.info.setdefault("replayer", None)
+            if ob.info.get("args") is not None:
+                ob.info["replayer"] = records_replayer(fn, name, ob.info["args"])
     return [common.summarise(r, [common.function_record(fn)]) for r in out]
+
+
+def records_replayer(fn, name, args):
+    """replay a counter-model on the real function against the reference encoder of spec/records_spec.py"""
+    def replay(ob):
+        import io
+        from checks.l1_serial import native_outcome, small_model
+        from kio.records.schema import NewRecordBatch
+        from spec import domains
+        from spec import records_spec as RS
+        conc = domains.Concretiser(small_model(ob))
+        vals = [conc.value(a) for a in args]
+        buf = io.BytesIO()
+        k, res = native_outcome(lambda: fn(buf, *vals))
+        try:
+            if name == "write_signed_compact_bytes":
+                want = RS.nb(vals[0])
+            elif name == "write_header":
+                want = RS.nb(vals[0].key) + RS.nb(vals[0].value)
+            elif name == "write_record":
+                want = RS.encode_record(vals[0], vals[1], vals[2])
+            elif name == "_write_batch_pre_checksum":
+                want = RS.be(8, vals[0]) + RS.be(4, vals[1]) + RS.be(4, vals[2]) + RS.be(1, vals[3]) + RS.be(4, vals[4], False)
+            elif name == "_write_batch_post_checksum":
+                want = RS.encode_post(*vals[:8], vals[8])
+            elif isinstance(vals[0], NewRecordBatch):
+                want = RS.encode_new_batch(vals[0])
+            else:
+                want = RS.encode_prepared_batch(vals[0])
+        except Exception as ex:       # noqa: BLE001
+            return {"confirmed": None, "note": f"reference encoder not applicable to the concretised input: {ex!r}"}
+        got = buf.getvalue() if k == "return" else None
+        return {"confirmed": got != want, "function": f"kio.records.writers:{name}", "input": repr(vals)[:600],
+                "expected": want.hex()[:300], "observed": got.hex()[:300] if got is not None else f"raise {res.__name__}"}
+    return replay
 
 
 def main(tier):
